@@ -26,7 +26,7 @@
      op_len_u64 o       := the payload length of the message is < 2^64 (a usize; a Close counts 2 + |reason|)
      op_ctl_small o     := a user-supplied Pong / Close body / raw Pong-Close frame has <= 125 payload bytes *)
 From TungModel Require Import Base Coding Mask Header Frame Utf8 World Message Codec Protocol.
-From TungModel.proofs Require Import WireP.
+From TungModel.proofs Require Import WritePathP WireP.
 
 (* Main theorem.  In every reachable state (either role, any valid configuration, any operations
    other than raw frames, any transport/key oracle) the bytes accepted by the transport followed by
@@ -77,11 +77,15 @@ Proof.
   exists its. split; [apply wf_wire_decode; exact Hwf|exact Eq].
 Qed.
 
-(* the specification is unambiguous: the parser decides it, a byte string has one reading *)
+(* the reference parser decides the specification exactly (it accepts nothing else), and a byte
+   string has at most one reading *)
+Theorem C09_spec_decides : forall (r : role) (bs : bytes) (its : list witem),
+  spec_decode r bs = Some its <-> wf_wire r bs its.
+Proof. exact spec_decode_iff. Qed.
+
 Theorem C09_spec_unique : forall (r : role) (bs : bytes) (its its' : list witem),
-  (wf_wire r bs its -> spec_decode r bs = Some its) /\
-  (wf_wire r bs its -> wf_wire r bs its' -> its = its').
-Proof. intros r bs its its'. split; [apply wf_wire_decode|apply wf_wire_unique]. Qed.
+  wf_wire r bs its -> wf_wire r bs its' -> its = its'.
+Proof. exact wf_wire_unique. Qed.
 
 (* Frame::format of one canonical frame is one well-formed frame (any role-consistent key, any
    payload shorter than 2^64) *)
@@ -97,6 +101,38 @@ Theorem C09_draws_stream : forall (ks0 d ks : list key),
   (forall i : nat, (i < length d)%nat -> nth i d zero_key = nth i ks0 zero_key) /\
   ks = skipn (length d) ks0.
 Proof. exact draws_stream. Qed.
+
+(* the right opcode: a Text / Binary / Ping message that write accepts (in any state) is queued as
+   one frame of its own kind carrying its own payload, masked with the oracle's next key iff we are
+   the client; at most one parked automatic reply follows it.  (Pong and Close travel through
+   additional_send and are covered by C09_wire_wellformed; msg_kind/msg_body give their item.) *)
+Theorem C09_right_opcode :
+  forall (x : ctx) (m : message) (w : world) (u : unit) (x' : ctx) (w' : world),
+  op_no_raw (OpWrite m) -> data_frame m <> None ->
+  write x m w = (ROk u, x', w') ->
+  exists auto, queued (w_log w') =
+    queued (w_log w) ++ item_frame (mkItem (msg_kind m) (next_mask (x_role x) w) (msg_body m)) :: auto.
+Proof. exact write_queues_item. Qed.
+
+(* PARTIAL (named in the design): "every client frame is masked with a FRESH UNPREDICTABLE key".
+   Unpredictability is a property of rand::random() and is outside the model; the theorems above
+   hold for every key sequence.  What the model does give about freshness: the library never uses
+   a drawn key twice — if the generator never repeats a key (NoDup) and has not run dry, no two
+   frames on the wire share a key, and the keys used are among the first keys generated.
+   Missing: that rand produces such a sequence (statistical support test in the harness only). *)
+Theorem C09_fresh_key_partial :
+  forall (r : role) (part : bytes) (cfg : config) (x0 : ctx) (ops : list op) (w0 : world)
+         (rs : list (op_result * N)) (x : ctx) (w : world),
+  ctx_new r part cfg = Some x0 -> w_log w0 = [] ->
+  Forall op_no_raw ops -> Forall op_len_u64 ops ->
+  run_ops x0 ops w0 = (rs, x, w) ->
+  NoDup (w_keys w0) -> w_keys w <> [] ->
+  exists its : list witem,
+    queued (w_log w) = map item_frame its /\
+    wf_wire r (wire (w_log w) ++ c_out (x_codec x)) its /\
+    NoDup (item_keys its) /\
+    exists d, w_keys w0 = d ++ w_keys w /\ subseq (item_keys its) d.
+Proof. exact wire_keys_distinct. Qed.
 
 (* Automatic replies.  If no user-supplied Pong / Close exceeds 125 payload bytes (the excluded
    precondition), then every Pong and every Close frame ever queued, and the one parked in
@@ -217,6 +253,21 @@ Proof.
   split; [vm_compute; reflexivity|]. split; [|split]; vm_compute; reflexivity.
 Qed.
 
+(* the hypotheses of C09_fresh_key_partial are satisfiable: the same client run with a fourth key *)
+Example C09_ex_fresh_sat :
+  let w0 := mkWorld (w_rds ex_cli_world) (w_wrs ex_cli_world) (w_fls ex_cli_world)
+                    [(1, 2, 3, 4); (5, 6, 7, 8); (9, 10, 11, 12); (13, 14, 15, 16)] [] in
+  exists x0 rs x w,
+    ctx_new Client [] ex_cfg = Some x0 /\ run_ops x0 ex_cli_ops w0 = (rs, x, w) /\
+    NoDup (w_keys w0) /\ w_keys w = [(13, 14, 15, 16)].
+Proof.
+  eexists. eexists. eexists. eexists.
+  split; [reflexivity|]. split; [vm_compute; reflexivity|]. split; [|vm_compute; reflexivity].
+  cbn [w_keys].
+  repeat (constructor; [cbn [In]; intros H; repeat (destruct H as [H|H]; [discriminate H|]); exact H|]).
+  constructor.
+Qed.
+
 (* Why "subseq" and not "prefix": a key drawn for a frame that bounces off a full out_buffer
    (WriteBufferFull; the parked Pong is re-masked later) is discarded.  Client, buffer limit 10:
    the Text frame (key k1) stays in out_buffer because the transport would block; the Pong reply
@@ -297,9 +348,12 @@ Proof. split; vm_compute; reflexivity. Qed.
 Print Assumptions C09_wire_wellformed.
 Print Assumptions C09_wire_wellformed_raw.
 Print Assumptions C09_wire_parses.
+Print Assumptions C09_spec_decides.
 Print Assumptions C09_spec_unique.
 Print Assumptions C09_frame_format_spec.
 Print Assumptions C09_draws_stream.
+Print Assumptions C09_right_opcode.
+Print Assumptions C09_fresh_key_partial.
 Print Assumptions C09_auto_reply_size.
 Print Assumptions C09_auto_reply_size_pure.
 Print Assumptions C09_auto_reply_local.
